@@ -53,7 +53,7 @@ func main() {
 	runner.Main(runner.Config{
 		ID:    "C03",
 		Level: "fault_enumeration",
-		Rule:  "per configuration {fresh,overlay bowl} x {rsync-only patch, optimized patch (bsdiff series, rediff partitions 2)} x {none,gzip-6,brotli-1} x build pair (>=1 MiB fresh data interleaved with reused blocks in >=2 files, whole-file copies, empty files, a deleted file; one pair >=4 MiB; quick: 8 of the 36 configurations): reference run without saves; recording run with an always-saving consumer (Save -> continue) that snapshots output+stage directories at every ShouldSave call, at every Save and after the last message, and gob-encodes each checkpoint on the spot. Enumerated: crash = every checkpoint k x crash snapshot t in {at the checkpoint, next message, next checkpoint, last call of the same file, first call of the next file, last call, after the last message} x torn states: every single differing file in {as at t, as at k / missing if created after k, truncated to {ckpt offset, +1, midpoint, written extent-1, len-1}, zero-filled after the ckpt offset} (reduced set for files other than the checkpointed one and the one in progress at t) plus the product of the reduced sets over those two files; chain = resume from k (crash at the checkpoint, at the next checkpoint, or one message later with the checkpointed file cut back), stop at the n-th offered checkpoint (n in {1,2} per leg), resume again, depth 3, then run to completion still saving; sched = from scratch with ShouldSave true only at call i / from call i on / on a window [i,j<=i+3], every Save continuing or every Save stopping (then a brand-new patcher resumes and the schedule goes on). Every resumption uses a brand-new patcher, pool and bowl and the gob-decoded checkpoint; oracle: nil error (ErrStop exactly when a Save asked to stop) and final tree (after Commit) byte-identical to the reference run's tree. Non-trivial: crash/chain = the crash snapshot precedes the end of the run or a file is torn (the resumed run has bytes to write); sched = at least one checkpoint was saved; recording = at least one checkpoint was offered.",
+		Rule:  "per configuration {fresh,overlay bowl} x {rsync-only patch, optimized patch (bsdiff series, rediff partitions 2)} x {none,gzip-6,brotli-1} x build pair (>=1 MiB fresh data interleaved with reused blocks in >=2 files, whole-file copies, empty files, a deleted file; one pair >=4 MiB; quick: 8 of the 36 configurations): reference run without saves; recording run with an always-saving consumer (Save -> continue) that snapshots output+stage directories at every ShouldSave call, at every Save and after the last message, and gob-encodes each checkpoint on the spot. Enumerated: crash = every checkpoint k x crash snapshot t in {at the checkpoint, next message, next checkpoint, last call of the same file, first call of the next file, last call, after the last message} (thorough: also every other snapshot after k, as it is and with the file in progress cut in the middle of what was written since k) x torn states: every single differing file in {as at t, as at k / missing if created after k, truncated to {ckpt offset, +1, midpoint, written extent-1, len-1}, zero-filled after the ckpt offset} (reduced set for files other than the checkpointed one and the one in progress at t) plus the product of the reduced sets over those two files; chain = resume from k (crash at the checkpoint, at the next checkpoint, or one message later with the checkpointed file cut back), stop at the n-th offered checkpoint (n in {1,2} per leg), resume again, depth 3, then run to completion still saving; sched = from scratch with ShouldSave true only at call i / from call i on / on a window [i,j<=i+3], every Save continuing or every Save stopping (then a brand-new patcher resumes and the schedule goes on). Every resumption uses a brand-new patcher, pool and bowl and the gob-decoded checkpoint; oracle: nil error (ErrStop exactly when a Save asked to stop) and final tree (after Commit) byte-identical to the reference run's tree. Non-trivial: crash/chain = the crash snapshot precedes the end of the run or a file is torn (the resumed run has bytes to write); sched = at least one checkpoint was saved; recording = at least one checkpoint was offered.",
 		Assumptions: []string{
 			"crash model: file-granular; a file is as at the crash snapshot, as at the checkpoint, truncated, zero-filled after the checkpointed offset, or missing if created after the checkpoint; no reordering inside one write",
 			"crashes during bowl.Commit are not enumerated (the statement speaks of checkpoints handed to the save consumer, which happens before Commit)",
@@ -81,8 +81,9 @@ func configs(quick bool) []Config {
 		}
 	}
 	var out []Config
-	for _, pd := range allPairs() {
-		for _, series := range []string{"rsync", "bsdiff"} {
+	// series outermost: the costly bsdiff configurations spread evenly over the groups
+	for _, series := range []string{"rsync", "bsdiff"} {
+		for _, pd := range allPairs() {
 			for _, comp := range []wh.Comp{"none", "gzip-6", "brotli-1"} {
 				for _, b := range []string{"fresh", "overlay"} {
 					out = append(out, Config{b, series, comp, pd.Name})
@@ -101,6 +102,12 @@ func body(w *runner.W) {
 	chainSub := runner.NewSub(w, "chain", run, runner.Journal())
 	schedSub := runner.NewSub(w, "schedule", run, runner.Journal())
 	subs := map[string]*runner.Sub[Case]{"record": recSub, "crash": crashSub, "chain": chainSub, "sched": schedSub}
+	e.onHarn = func(kind, msg string) {
+		fmt.Fprintf(os.Stderr, "harness error (%s): %s\n", kind, msg)
+		if s := subs[kind]; s != nil {
+			s.Skip("harness error: " + msg)
+		}
+	}
 	active := true
 	for _, s := range subs {
 		if !s.Active() {
@@ -128,7 +135,10 @@ func body(w *runner.W) {
 		if ci%G != g || w.Expired() {
 			continue
 		}
-		rec := e.recording(cfg)
+		rec := e.tryRecording(cfg)
+		if rec == nil {
+			continue
+		}
 		emit := func(c Case) {
 			c.Cfg, c.Sig = cfg, rec.sig
 			o := ord[c.Kind]
@@ -144,6 +154,9 @@ func body(w *runner.W) {
 		}
 		recSub.Note("cfg "+cfg.String(), fmt.Sprintf("patch=%dB series=%d bsdiff_series=%d messages=%d shouldsave_calls=%d checkpoints=%d", len(rec.patch), rec.nSeries, rec.nBsdiff, rec.nMsgs, rec.calls, len(rec.ckpts)))
 		enumCrash(rec, w.Quick(), emit)
+		if !w.Quick() {
+			enumCrashAll(rec, emit)
+		}
 		enumChain(rec, w.Quick(), emit)
 		enumSched(rec, w.Quick(), emit)
 		crashSub.Note("cases "+cfg.String(), fmt.Sprintf("crash=%d chain=%d sched=%d", nCases["crash"], nCases["chain"], nCases["sched"]))
@@ -152,6 +165,24 @@ func body(w *runner.W) {
 	for _, s := range subs {
 		s.Done()
 	}
+}
+
+// tryRecording computes the recording of a configuration; a harness failure
+// marks every sub-check skipped instead of raising an alarm.
+func (e *env) tryRecording(cfg Config) (rec *recording) {
+	defer func() {
+		if x := recover(); x != nil {
+			he, ok := x.(harnessErr)
+			if !ok {
+				panic(x)
+			}
+			for _, k := range []string{"record", "crash", "chain", "sched"} {
+				e.onHarn(k, cfg.String()+": "+string(he))
+			}
+			rec = nil
+		}
+	}()
+	return e.recording(cfg)
 }
 
 // ---------------------------------------------------------------------------
@@ -266,6 +297,55 @@ func enumCrash(rec *recording, quick bool, emit func(Case)) {
 	}
 }
 
+// enumCrashAll (thorough only) adds every remaining event t after checkpoint k
+// as a crash snapshot: as it is, and with the file in progress at t cut to the
+// middle of what was written to it since the checkpoint (a crash in the middle
+// of a message).
+func enumCrashAll(rec *recording, emit func(Case)) {
+	tag := physTag(rec.cfg)
+	for k := range rec.ckpts {
+		ck := &rec.ckpts[k]
+		if ck.EncErr != nil || ck.DecErr != nil {
+			continue
+		}
+		atK := rec.events[ck.Ev].snap
+		done := map[int]bool{}
+		for _, tc := range crashPoints(rec, k) {
+			done[tc.ev] = true
+		}
+		for t := ck.Ev + 1; t < len(rec.events); t++ {
+			if done[t] {
+				continue
+			}
+			atT := rec.events[t].snap
+			base := Case{Kind: "crash", K: k, T: t, TClass: "any"}
+			emit(base)
+			ip := tag + "/" + rec.events[t].File
+			for _, f := range differing(atK, atT, ck.PhysKey) {
+				if f != ip {
+					continue
+				}
+				for _, st := range tornStates(f, atK, atT, ck, 0) {
+					if st.State == "trunc" && st.N > st0(f, ck)+1 && st.N < int64(len(atT[f].data))-1 {
+						c := base
+						c.Torn = []TornFile{st}
+						emit(c)
+						break
+					}
+				}
+			}
+		}
+	}
+}
+
+// st0 is the checkpointed offset of the file (0 unless the checkpointed writer appends to it).
+func st0(key string, ck *ckRec) int64 {
+	if key == ck.PhysKey {
+		return ck.PhysOff
+	}
+	return 0
+}
+
 func enumChain(rec *recording, quick bool, emit func(Case)) {
 	stopSets := [][]int{{0, 0, 0}, {1, 0, 1}, {0, 1, 0}, {1, 1, 1}}
 	for k := range rec.ckpts {
@@ -328,6 +408,16 @@ func enumSched(rec *recording, quick bool, emit func(Case)) {
 // case bodies
 
 func (e *env) runCase(c Case, r *runner.Rec) {
+	defer func() {
+		if x := recover(); x != nil {
+			he, ok := x.(harnessErr)
+			if !ok {
+				panic(x)
+			}
+			r.Outcome("harness-error")
+			e.onHarn(c.Kind, string(he))
+		}
+	}()
 	rec := e.recording(c.Cfg)
 	if c.Sig != "" && rec.sig != "" && c.Sig != rec.sig {
 		fmt.Fprintf(os.Stderr, "note: the recording run of %s now has signature %s, the case was produced from %s\n", c.Cfg, rec.sig, c.Sig)
@@ -340,12 +430,16 @@ func (e *env) runCase(c Case, r *runner.Rec) {
 	case "sched":
 		e.caseSched(c, rec, r)
 	default:
-		panic("harness: unknown case kind " + c.Kind)
+		panic(harnessErr("unknown case kind " + c.Kind))
 	}
 }
 
 func (e *env) caseRecord(c Case, rec *recording, r *runner.Rec) {
 	cfg := c.Cfg
+	if rec.panicSite != "" {
+		r.Failf("panic:"+rec.panicSite, "panic during the reference / always-saving run of %s: %s\n%s", cfg, rec.panicMsg, rec.panicStack)
+		return
+	}
 	if rec.refErr != nil {
 		r.Failf("reference-run-error:"+cfg.Bowl+":"+cfg.Series+":"+cfg.algo()+":"+errClass(rec.refErr), "uninterrupted application without saves failed: %v", rec.refErr)
 		return
@@ -415,7 +509,7 @@ func (e *env) caseCrash(c Case, rec *recording, r *runner.Rec) {
 	defer os.RemoveAll(base)
 	d, err := e.prepare(c, rec, base)
 	if err != nil {
-		panic(fmt.Sprintf("harness: preparing crash state: %v", err))
+		panic(harnessErr(fmt.Sprintf("preparing crash state: %v", err)))
 	}
 	if c.T != len(rec.events)-1 || len(c.Torn) > 0 {
 		r.Nontrivial()
@@ -489,7 +583,7 @@ func (e *env) caseSched(c Case, rec *recording, r *runner.Rec) {
 	defer os.RemoveAll(base)
 	d, err := startDirs(cfg, rec.oldDir, base)
 	if err != nil {
-		panic(fmt.Sprintf("harness: %v", err))
+		panic(harnessErr(err.Error()))
 	}
 	fpTail := cfg.Bowl + ":" + cfg.Series + ":" + cfg.algo() + ":sched-" + sd.Mode + fmt.Sprintf(":stop=%v", sd.Stop)
 	call := 0 // global over all legs
